@@ -52,7 +52,9 @@ class Session:
         self.world = world
         self.device = device or world["device"]
         self.geos = [Geo(s) for s in world["labware"]]
-        self.labs = [build_labware(self.rt, s) for s in world["labware"]]
+        self.input_arrays = {}
+        self.labs = [build_labware(self.rt, s, self.input_arrays, i) for i, s in enumerate(world["labware"])]
+        self.input_copies = {i: a.copy() for i, a in self.input_arrays.items()}
         self.wl = build_worklist(self.rt, world, scratch=scratch, device=self.device)
         self.events = []
         self.nrec = 0
@@ -150,6 +152,12 @@ class Session:
             (lab, tuple(float(x).hex() for x in arr.flatten().tolist()))
             for lab, arr in self.labs[i].history
         ]
+
+    def inputs_untouched(self):
+        """the arrays the user script handed to the constructors still hold what it put there."""
+        import numpy as np
+
+        return all(np.array_equal(a, self.input_copies[i]) for i, a in self.input_arrays.items())
 
     def digest(self):
         return digest_events(self.events)
